@@ -41,18 +41,18 @@ static int regex_strict(const char *s, long out[3])
 {
 	const char *p = s;
 	for (int c = 0; c < 3; c++) {
-		char *e;
 		if (!(*p >= '0' && *p <= '9'))
 			return 0;
 		size_t nd = strspn(p, "0123456789");
-		if (nd > 10)
-			return 0;
-		long long v = atoll(p);
-		if (v > INT_MAX)
+		char tmp[VP_N];
+		memcpy(tmp, p, nd);
+		tmp[nd] = '\0';
+		errno = 0;
+		unsigned long long v = strtoull(tmp, NULL, 10);
+		if (errno != 0 || v > INT_MAX)
 			return 0;
 		out[c] = (long) v;
 		p += nd;
-		(void) e;
 		if (c < 2) {
 			if (*p != '.')
 				return 0;
@@ -158,6 +158,8 @@ int main(void)
 		"1.2.3-rc1", "1.11.0", "1.2.3-5-g0123abc-dirty", "10.20.30", "007.08.09", "1.2.3.4.5.6",
 		"1.2.99999999999", "1.99999999999.3", "1.2.3-99999999999999999999999",
 		"123456789.123456789.123456789-aaaaaaaaaaaaaaaaaaaaaaaaaaaaaaaaa",  /* 63 chars */
+		"00000000001.2.3", "02147483647.1.1", "02147483648.1.1", "2147483647.2147483648.0", "1.2.2147483647",
+		"1.2.2147483648", "-9223372036854775808.0.0", "09223372036854775807.1.1", "1.2.3-4294967297",
 		"\v1.\f2.\r3", "\n1.2.3", "1.2.3\n", "+1.+2.+3", "1.2.+-3", "1.2.-+3",
 	};
 	for (unsigned i = 0; i < sizeof(extra) / sizeof(extra[0]); i++)
